@@ -74,6 +74,10 @@ def conjuncts(g):
         out = []
         for ch in g.children(): out += conjuncts(ch)
         return out
+    if z3.is_implies(g):
+        a, b = g.children()
+        cs = conjuncts(b)
+        if len(cs) > 1: return [z3.Implies(a, c) for c in cs]
     return [g]
 
 
